@@ -68,6 +68,16 @@ def use_site_lines(ctx):
             for flags in (R.STD, R.STD & ~(1 << R.FLAG_BITS["MINIMALDATA"]), 0):
                 for sv in ((0, 1, 3) if op != 0xae else (0, 1)):
                     lines.append(R.run_line(sv, flags, bytes([op]), list(below) + [v]))
+    # OP_CHECKSIGADD reads its counter from the middle of its three operands, whatever the signature turns out to be
+    for v in operands:
+        for sig in (b"", bytes(range(64))):
+            for flags in (R.STD, R.STD & ~(1 << R.FLAG_BITS["MINIMALDATA"])):
+                lines.append(R.run_line(3, flags, bytes([0xba]), [sig, v, b"\x44" * 32]))
+                lines.append(R.run_line(3, flags, bytes([0xba]), [sig, v, b""]))
+    # OP_CHECKMULTISIG: the signature count below one key
+    for v in operands:
+        for sv in (0, 1):
+            lines.append(R.run_line(sv, R.STD, bytes([0xae]), [b"", v, b"\x02" + b"\x11" * 32, b"\x01"]))
     # the operand in second position of binary operators
     for op in (0x93, 0x94, 0x9f, 0xa4):
         for v in operands:
